@@ -125,6 +125,7 @@ static uint64_t vclock = 1000000;
 static uint64_t clock_jump = (1ull << 33);
 static uint64_t obs_hash = 0x1234567;
 static int finishing;
+static int sub_choice; /* choice points since the last hooked operation: keeps consecutive points in one state apart */
 
 /* shared between all processes of one exploration */
 struct shared {
@@ -417,7 +418,8 @@ static int next_choice(int n, int kind)
 	if(i >= MAXPTS)
 		rs_engine_error("too many choice points in one execution (%u)", i);
 	int c = 0;
-	uint64_t dg = opt_stateful ? engine_digest() : 0;
+	uint64_t dg = opt_stateful ? rs_mix(engine_digest(), (uint64_t)kind * 64 + (uint64_t)sub_choice) : 0;
+	sub_choice++;
 	if(i < pfx_len) {
 		while(pfx_pos < pfx_n && pfx[pfx_pos].idx < i)
 			pfx_pos++;
@@ -540,6 +542,7 @@ void rs_point(const char *what)
 		return;
 	me->file = what;
 	me->line = 0;
+	sub_choice = 0;
 	sched_point();
 }
 
@@ -650,6 +653,7 @@ int vy_pre(int kind, const volatile void *addr, unsigned size, const char *file,
 		return 0;
 	me->file = file;
 	me->line = line;
+	sub_choice = 0;
 	if(is_fine(file))
 		sched_point();
 	if(kind == VY_PAUSE)
